@@ -32,8 +32,8 @@ def run(ctx: RuleContext):
     r = roles_for(m)
     sb = StackBalance(m, r)
     cg = CallGraph(m)
-    check_balance(ctx, sb, cg, "C05")
-    check_storage_discipline(ctx, r)
+    ctx.sub(check_balance, ctx, sb, cg, "C05")
+    ctx.sub(check_storage_discipline, ctx, r)
 
 
 # ---------------------------------------------------------------------- C05.1-3
